@@ -72,6 +72,13 @@ fn game_from(start: Pos, startpos: bool, rng: &mut Rng, plies: usize) -> Game {
 /// A random game command: startpos or FEN form; FEN starts are exported from other games at random
 /// plies with hostile (but reachable) move counters.
 fn random_game(rng: &mut Rng) -> Game {
+    if rng.chance(1, 40) {
+        // a very long game (hundreds of moves, up to 1500 plies): GUIs send the whole game every move
+        let start = Pos::start();
+        let n = rng.range(400, 1500) as usize;
+        let (positions, moves) = gen::long_game(&start, rng, n);
+        return Game { start, startpos: true, moves, positions };
+    }
     let plies = match rng.below(10) {
         0 => 0,
         1..=3 => rng.range(1, 12) as usize,
@@ -407,9 +414,13 @@ pub fn repeat_game_from(rng: &mut Rng, force_startpos: Option<bool>) -> Game {
     let mut start = if startpos {
         Pos::start()
     } else {
-        match rng.below(4) {
+        match rng.below(6) {
             0 => gen::g_small(rng, 8),
             1 => gen::corpus_pos(rng.below(gen::CORPUS.len() as u64) as usize),
+            // kings and rooks at home with castling rights: shuffling them out and back makes the
+            // same placement recur with fewer rights (a different position)
+            2 => gen::g_castle(rng),
+            3 => Pos::from_fen(*rng.pick(&["r3k2r/8/8/8/8/8/8/R3K2R w KQkq - 0 1", "r3k2r/pppppppp/8/8/8/8/PPPPPPPP/R3K2R w KQkq - 0 1", "r3k2r/8/8/8/8/8/8/R3K2R b KQkq - 0 1", "rn2k2r/8/8/8/8/8/8/R3K1NR w KQkq - 0 1"])).unwrap(),
             _ => gen::g_game_pos(rng),
         }
     };
@@ -456,6 +467,126 @@ pub fn repeat_game_from(rng: &mut Rng, force_startpos: Option<bool>) -> Game {
     Game { start, startpos, moves, positions }
 }
 
+/// A history in which a position occurs twice EARLY and the move that brings it about a third time
+/// comes more than 100 plies later: two out-and-back cycles, then a long reversible excursion in
+/// which each side walks a piece out and back along its own path, all without captures, pawn moves
+/// or castling-right changes (total below the 75-move limit).
+pub fn far_repeat_game(rng: &mut Rng) -> Option<Game> {
+    for _ in 0..300 {
+        let mut start = if rng.chance(1, 2) { gen::g_small(rng, 9) } else { gen::g_game_pos(rng) };
+        start.castle = 0;
+        start.ep = oracle::NO_EP;
+        start.half = 0;
+        start.full = rng.range(1, 80) as u32;
+        if start.validity().is_err() || start.in_check() {
+            continue;
+        }
+        let reversible = |p: &Pos, m: &Mv| m.kind == MvKind::Normal && m.promo == 0 && !p.is_capture(m) && oracle::kind(p.sq[m.from as usize]) != oracle::P;
+        let mut positions = vec![start.clone()];
+        let mut moves: Vec<Mv> = vec![];
+        let mut cur = start.clone();
+        let mut ok = true;
+        let play = |cur: &mut Pos, m: Mv, positions: &mut Vec<Pos>, moves: &mut Vec<Mv>| {
+            *cur = cur.make(&m);
+            moves.push(m);
+            positions.push(cur.clone());
+        };
+        // two cycles a, b, a^-1, b^-1
+        let la = cur.legal_moves();
+        let cand_a: Vec<Mv> = la.iter().filter(|m| reversible(&cur, m)).cloned().collect();
+        if cand_a.is_empty() {
+            continue;
+        }
+        let a = *rng.pick(&cand_a);
+        let after_a = cur.make(&a);
+        let cand_b: Vec<Mv> = after_a.legal_moves().iter().filter(|m| reversible(&after_a, m)).cloned().collect();
+        if cand_b.is_empty() {
+            continue;
+        }
+        let b = *rng.pick(&cand_b);
+        let inv = |m: &Mv| Mv { from: m.to, to: m.from, promo: 0, kind: MvKind::Normal };
+        for _ in 0..2 {
+            for m in [a, b, inv(&a), inv(&b)] {
+                if cur.legal_moves().contains(&m) && !cur.is_capture(&m) {
+                    play(&mut cur, m, &mut positions, &mut moves);
+                } else {
+                    ok = false;
+                    break;
+                }
+            }
+            if !ok {
+                break;
+            }
+        }
+        if !ok || cur.key() != start.key() {
+            if std::env::var("FAR_DEBUG").is_ok() { eprintln!("cycle failed ok={}", ok); }
+            continue;
+        }
+        // excursion: each side walks ONE piece out for k short steps (adjacent squares or knight
+        // jumps, so no path can be blocked), then each side walks its piece back the way it came
+        let k = rng.range(26, 34) as usize;
+        let mut wout: Vec<Mv> = vec![];
+        let mut bout: Vec<Mv> = vec![];
+        let short = |m: &Mv| {
+            let df = (oracle::file_of(m.from) - oracle::file_of(m.to)).abs();
+            let dr = (oracle::rank_of(m.from) - oracle::rank_of(m.to)).abs();
+            (df <= 1 && dr <= 1) || (df == 1 && dr == 2) || (df == 2 && dr == 1)
+        };
+        for i in 0..2 * k {
+            let l = cur.legal_moves();
+            let own = if i % 2 == 0 { &wout } else { &bout };
+            let all: Vec<Mv> = l
+                .iter()
+                .filter(|m| reversible(&cur, m) && short(m) && !cur.gives_check(m))
+                .filter(|m| match own.last() {
+                    // the same piece keeps walking
+                    Some(prev) => m.from == prev.to,
+                    None => oracle::kind(cur.sq[m.from as usize]) == oracle::N || oracle::kind(cur.sq[m.from as usize]) == oracle::K || oracle::kind(cur.sq[m.from as usize]) == oracle::Q,
+                })
+                .cloned()
+                .collect();
+            // prefer not to step straight back
+            let forward: Vec<Mv> = all.iter().filter(|m| own.last().map(|p| m.to != p.from).unwrap_or(true)).cloned().collect();
+            let cand = if forward.is_empty() { all } else { forward };
+            if cand.is_empty() {
+                ok = false;
+                break;
+            }
+            let m = *rng.pick(&cand);
+            if i % 2 == 0 {
+                wout.push(m);
+            } else {
+                bout.push(m);
+            }
+            play(&mut cur, m, &mut positions, &mut moves);
+        }
+        if !ok {
+            if std::env::var("FAR_DEBUG").is_ok() { eprintln!("excursion out failed after {} {}", wout.len(), bout.len()); }
+            continue;
+        }
+        for i in 0..k {
+            for side_moves in [&wout, &bout] {
+                let m = inv(&side_moves[k - 1 - i]);
+                if cur.legal_moves().contains(&m) && !cur.is_capture(&m) {
+                    play(&mut cur, m, &mut positions, &mut moves);
+                } else {
+                    ok = false;
+                    break;
+                }
+            }
+            if !ok {
+                break;
+            }
+        }
+        if !ok || cur.key() != start.key() || cur.half >= 148 {
+            if std::env::var("FAR_DEBUG").is_ok() { eprintln!("return failed ok={} half={}", ok, cur.half); }
+            continue;
+        }
+        return Some(Game { start, startpos: false, moves, positions });
+    }
+    None
+}
+
 /// occurrences of `s` among the game's positions: (strict identity, FIDE identity)
 fn occurrences(g: &Game, s: &Pos) -> (u32, u32) {
     let ks = s.key();
@@ -492,6 +623,14 @@ fn c09_check_successors(engine: &mut Flounder, g: &Game, st: &mut Stats, case: &
             }
         };
         st.bump("successors_checked");
+        {
+            // the same placement and side to move on record with other castling rights / ep target:
+            // a different position, which a hash that conflates rights would count as an occurrence
+            let same_placement = g.positions.iter().filter(|p| p.sq == s.sq && p.stm == s.stm).count() as u32;
+            if same_placement > strict {
+                st.bump("placement_recurs_with_other_rights_or_ep");
+            }
+        }
         st.bump(match strict {
             0 => "successor_seen_0_times",
             1 => "successor_seen_1_time",
@@ -532,7 +671,17 @@ fn c09_inprocess(ctx: &Ctx) -> Stats {
             if i >= 50 && ctx.past(0.6) {
                 break;
             }
-            let g = repeat_game(&mut rng);
+            let g = if i % 8 == 7 {
+                match far_repeat_game(&mut rng) {
+                    Some(g) => {
+                        st.bump("histories_with_third_occurrence_more_than_100_plies_after_the_second");
+                        g
+                    }
+                    None => repeat_game(&mut rng),
+                }
+            } else {
+                repeat_game(&mut rng)
+            };
             let cmd = g.command(None);
             let third = g.current().legal_moves().iter().any(|m| occurrences(&g, &g.current().make(m)).0 >= 2);
             st.case(hash64(&cmd), third);
@@ -725,7 +874,7 @@ pub fn run_c09(ctx: &Ctx) -> i32 {
         level: "exploration",
         rule: "a case is a game history given with a position command (startpos or FEN start, 2..40 moves that shuffle pieces out and back so that candidate successor positions have occurred 0, 1, 2 or more times, sometimes the initial position), optionally preceded on the same engine by another position command (an extension, a prefix, an unrelated game). For every successor S of the current position the engine's repetition answer (hook) must be 'draw' when S already occurred twice (identical placement, side, rights, ep target) and 'not a draw' when it occurred fewer than twice even under the FIDE reading of 'same position'; in between either answer is accepted. End-to-end on the real binary: after 'ucinewgame', the position command and 'go depth 1', the printed depth-1 score must equal max over moves of (0 for a third occurrence, else minus the engine's own quiescence value). Distinct by command text; non-trivial when some successor is a third occurrence",
         assumptions: vec!["the reference rules implementation is correct (perft self-test at every run)".into(), "the end-to-end expectation uses the engine's own quiescence search (hook build of the same sources) for the values of non-repeating moves".into()],
-        required: if ctx.replay.is_some() { vec![] } else { vec!["successor_seen_0_times", "successor_seen_1_time", "successor_seen_2_times", "successor_seen_3_or_more_times", "third_occurrence_of_the_initial_position", "earlier_command_extends_the_game", "earlier_command_is_a_prefix", "earlier_command_unrelated_game", "blackbox_games_where_the_rule_changes_the_score"] },
+        required: if ctx.replay.is_some() { vec![] } else { vec!["successor_seen_0_times", "successor_seen_1_time", "successor_seen_2_times", "successor_seen_3_or_more_times", "third_occurrence_of_the_initial_position", "earlier_command_extends_the_game", "earlier_command_is_a_prefix", "earlier_command_unrelated_game", "blackbox_games_where_the_rule_changes_the_score", "histories_with_third_occurrence_more_than_100_plies_after_the_second", "placement_recurs_with_other_rights_or_ep"] },
         exhaustive: false,
         extra: vec![],
     };
